@@ -8,7 +8,7 @@ CONSTANTS
   MaxGen = 3
   KTypes = {"basicnopkce"}
   ClientAuth = {"k1ok", "k1bad", "k2ok"}
-  ScopeKinds = {"none", "narrow", "wide"}
+  ScopeKinds = {"none", "wide"}
 INIT Init
 NEXT Next
 VIEW view
